@@ -1515,6 +1515,48 @@ class World(object):
         else:
             self.finish_new(st, x, origin='element')
 
+    def op_iterate(self, st):
+        """Elements obtained by ITERATING over an array object (for e in x, list(x), iter / next): each is
+        what x[i] is - a view of the values with a configuration and a status record of its own."""
+        op = st.op
+        self.room()
+        a = self.ref(op['slot'], lambda o: isinstance(o.val, np.ndarray) and o.val.ndim > 0 and o.val.shape[0] > 0)
+        st.kind = 'derive'
+        st.pure = True
+        st.srcs = [a]
+        s = self.slots[a]
+        n = int(s.pos.shape[0])
+        free = MAX_SLOTS - len(self.live())
+        keep = sorted(set(int(i) % n for i in op['keep']))[:max(1, free)]
+        yield
+        o = self.obj(a)
+        how = op['how']
+        if how == 'list':
+            elems = list(o)
+        elif how == 'for':
+            elems = []
+            for e in o:
+                elems.append(e)
+        else:
+            it = iter(o)
+            elems = []
+            for _ in range(max(keep) + 1):
+                elems.append(next(it))
+        if how != 'next' and len(elems) != n:
+            st.extra['iter_len'] = (len(elems), n)
+        self.bump('iterated_' + how)
+        for i in keep:
+            if i >= len(elems):
+                continue
+            region = s.pos[i]
+            if isinstance(region, np.ndarray):
+                self.finish_new(st, elems[i], token=s.token, pos=region, origin='view')
+                self.bump('view_created')
+            else:
+                self.finish_new(st, elems[i], origin='element')
+        if len(st.new) > 1:
+            self.bump('iterated_siblings_kept')
+
     def op_reduce(self, st):
         op = st.op
         self.room()
@@ -2054,12 +2096,19 @@ class World(object):
         def call(t):
             kw = {'restore_val': False} if keep_raw else {}
             if op.get('dtype') is not None:
+                if op.get('with'):
+                    kw.update(op['with'])
                 return t.resize(dtype=op['dtype'], **kw)
             a, b, c = self.fmt_args(op['fmt'])
             if op.get('n_int') is not None:
                 return t.resize(a, b, c, op['n_int'], **kw)
             return t.resize(a, b, c, **kw)
         st.redo = lambda t, so: call(t)
+        if op.get('with'):
+            # dtype= together with a size keyword is documented to raise ValueError: the request is turned
+            # down as a whole, the object stays in play and is judged like every other live object
+            st.expect_reject = True
+            self.bump('resize_dtype_with_sizes_rejected')
         yield
         call(self.obj(d))
         self.fresh_buffer(d)
